@@ -19,6 +19,25 @@ def run(ctx):
         n_cases = 2500 if quick else 60000
         rng = ctx.rng
         cases = [halgen.program(rng, family=rng.choice(FAMILIES)) for _ in range(n_cases)]
+        # every ring degree up to 2^16 on every back end (round trips only: linear time)
+        big = [halgen.program(rng, family="dft_bign") for _ in range(120 if quick else 600)]
+        cases += [c for c in big if c[1]["n"] <= 8192]
+        # beyond 2^13 the list-based driver is slow (quadratic): the implementation is compared with the independent exact
+        # oracle of the property statement instead (a forward/inverse round trip returns its input)
+        huge = [c for c in big if c[1]["n"] > 8192]
+        if huge:
+            from . import haloracle
+            rc_h, iout_h, _ = ctx.run_lines(binp, ["hal"], [f"{k} {c[0]}" for k, c in enumerate(huge)], timeout=600)
+            for k, (line, meta) in enumerate(huge):
+                a = halrun.ans_of(iout_h, k)
+                want = haloracle.run(line)
+                ctx.count_case(("dft_bign", meta["be"], meta["n"], meta["class"]))
+                if halgen.compare(a, want):
+                    ctx.oracle_failures += 1
+                    ctx.violation("forward/inverse transform round trip differs from its input at a large ring degree",
+                                  {"request": line[:300] + " …", "n": meta["n"], "backend": meta["be"], "implementation": a[:300], "expected": want[:300],
+                                   "replay": "printf '1 <request>\\n' | harness/target/release/pvh hal"}, True)
+                    break
         for off in range(0, len(cases), 5000):
             bad = halrun.run_cases(ctx, binp, drv, cases[off:off + 5000])
             for (k, d, a, b) in bad[:5]:
